@@ -629,7 +629,8 @@ fn round_ascii_digits(
 #[inline(never)]
 pub(crate) fn write_scientific_notation<W: Write>(n: &BigDecimal, w: &mut W) -> fmt::Result {
     if n.is_zero() {
-        return w.write_str("0e0");
+        // keep the scale of the zero in the exponent (0.00 => 0e-2)
+        return write!(w, "0e{}", (n.scale as i128).neg());
     }
 
     if n.int_val.sign() == Sign::Minus {
